@@ -45,7 +45,7 @@ Theorem C22_accepted_appends_one : forall c p m p',
 Proof. exact accepted_appends. Qed.
 Print Assumptions C22_accepted_appends_one.
 
-(** finding 2 repaired: the wrapper of an admitted group is its first transaction (same hash,
+(** finding 2 repaired: the wrapper of an accepted group is its first transaction (same hash,
     same Signature message), hence the pool entry [same_entry] of the property ... *)
 Theorem C22_group_wrapper_is_head : forall c p s ms ok p',
   pipeline c p (STx s) = (R_OK, p') -> s_forward s = false -> s_shape s = Group ms ok ->
@@ -63,7 +63,7 @@ Proof. exact foreign_wrapper_rejected. Qed.
 Print Assumptions C22_foreign_wrapper_rejected.
 
 (** the former refutation witness (wrapper with another account's public key, per-sender limit 1):
-    refused, the other account's own transaction is admitted, the honest wrapper is admitted *)
+    refused, the other account's own transaction is accepted, the honest wrapper is accepted *)
 Theorem C22_wrapper_witness_rejected :
   let c := wcfg false 100000 1 in
   pipeline c [] (STx w_wrap) = (R_MALFORMED, [])
